@@ -31,6 +31,9 @@ var solvers = []solverSpec{
 	{"z3new-norel", func(t int, f string) []string {
 		return []string{"z3-new", fmt.Sprintf("-T:%d", t), "smt.relevancy=0", "smt.auto_config=false", f}
 	}},
+	{"z3new-arith2", func(t int, f string) []string {
+		return []string{"z3-new", fmt.Sprintf("-T:%d", t), "smt.arith.solver=2", f}
+	}},
 	{"z3", func(t int, f string) []string { return []string{"z3", fmt.Sprintf("-T:%d", t), f} }},
 	{"cvc5", func(t int, f string) []string {
 		return []string{"cvc5", fmt.Sprintf("--tlimit=%d", t*1000), f}
@@ -171,7 +174,12 @@ func Discharge(units []*Unit, cfg SolverCfg) {
 			defer wg2.Done()
 			cpuSem <- true
 			defer func() { <-cpuSem }()
-			o := &Obligation{Name: u.VC.name + "/reach", Goal: "(not " + u.ReachCond + ")", NFacts: len(u.VC.facts)}
+			o := &Obligation{Name: u.VC.name + "/reach", Goal: "(not " + u.ReachCond + ")", NFacts: len(u.VC.facts), SkipFacts: map[int]bool{}}
+			for _, ob := range u.VC.obls {
+				if ob.Status != "unsat" {
+					o.SkipFacts[ob.NFacts] = true // the goal of ob was appended to the facts right after ob was created
+				}
+			}
 			file := oblFile(cfg.WorkDir, o)
 			u.VC.skipUndischarged = true
 			os.WriteFile(file, []byte(u.VC.script(o, false)), 0o644)
